@@ -263,7 +263,34 @@ func (w *world) checkViews(t *rapid.T, n *node, after string) {
 	if p := call(func() { bps, berr = balances(n.v, query) }); p != nil {
 		fail("GetBalanceOfAddresses panicked: %v", p)
 	}
-	if accrualProblem(m, query, headTime) {
+	predOverflow := false
+	for _, a := range query {
+		pc, ph := new(big.Int), new(big.Int)
+		for _, ux := range byAddr[a] {
+			if !spentByPool[txref.UxBodyID(ux.Body)] {
+				pc.Add(pc, bu(ux.Body.Coins))
+				if v, c := rules.Accrued(ux, headTime); c == rules.AccrueOK {
+					ph.Add(ph, v)
+				}
+			}
+		}
+		for _, e := range m.Pool {
+			for _, o := range e.Txn.Out {
+				if o.Address == a {
+					pc.Add(pc, bu(o.Coins))
+					ph.Add(ph, bu(o.Hours))
+				}
+			}
+		}
+		if pc.Cmp(two64) >= 0 || ph.Cmp(two64) >= 0 {
+			predOverflow = true
+		}
+	}
+	if predOverflow && berr != nil {
+		// conflicting pooled transactions pay the address more than 64 bits can hold in total: a predicted balance does
+		// not exist, the query may report an error (only a crash would be a finding)
+		w.stats["balance_prediction_not_representable"]++
+	} else if accrualProblem(m, query, headTime) {
 		// some queried output's coin hours cannot be computed at the head time (64-bit overflow):
 		// the query may fail as a whole; only a crash would be a finding
 		w.stats["balance_with_hour_overflow"]++
